@@ -602,6 +602,12 @@ func (e *Enc) execCall(v ssa.Value, c *ssa.CallCommon, in ssa.Instruction, guard
 	site := fmt.Sprintf("%s#%d", short, ord)
 	var args []Val
 	var argTypes []types.Type
+	if !c.IsInvoke() && c.StaticCallee() == nil {
+		if _, isClosure := c.Value.(*ssa.MakeClosure); !isClosure {
+			// a call through a function value (variable, field, parameter): nil function values panic
+			e.oblige("nil", e.ordName("nil"), tNot(tEq(e.val(c.Value).T, "0")), in.Pos(), "call of a nil function value: "+site)
+		}
+	}
 	if c.IsInvoke() {
 		args = append(args, e.val(c.Value))
 		argTypes = append(argTypes, c.Value.Type())
@@ -1318,6 +1324,8 @@ func (e *Enc) execSelect(in *ssa.Select) {
 	for i := len(in.States) - 1; i >= 0; i-- {
 		st := in.States[i]
 		ct := e.val(st.Chan).T
+		// a case whose channel is nil is never chosen (Go spec: communication on a nil channel never proceeds)
+		e.assume(tImp(tEq(idx, tInt(int64(i))), tNot(tEq(ct, "0"))))
 		chosen = tIte(tEq(idx, tInt(int64(i))), ct, chosen)
 		if st.Dir == types.SendOnly {
 			chosenSend = tIte(tEq(idx, tInt(int64(i))), tTrue, chosenSend)
@@ -1665,6 +1673,45 @@ func (e *Enc) mapClear(mt *types.Map, m Term) {
 func (e *Enc) execRange(in *ssa.Range) {
 	e.vals[in] = Val{T: e.val(in.X).T}
 	e.rangeOf[in] = in.X
+	if mt, ok := in.X.Type().Underlying().(*types.Map); ok {
+		// iteration state of a range over a map (Go spec, "For statements with range clause"): rangeseen<k>[key] = the
+		// key was produced already, rangecount<k> = how many were; the map's key set at the start is remembered
+		ord := e.mapRangeOrd(in)
+		ks := e.sortOf(mt.Key())
+		seenH, cntH, has0H := fmt.Sprintf("$g$rangeseen%d", ord), fmt.Sprintf("$g$rangecount%d", ord), fmt.Sprintf("$g$rangehas%d", ord)
+		e.hset(e.cur, seenH, fmt.Sprintf("(Array %s Bool)", ks), fmt.Sprintf("((as const (Array %s Bool)) false)", ks))
+		e.hset(e.cur, cntH, "Int", "0")
+		hs := e.mapHeaps(mt)
+		m := e.val(in.X).T
+		e.hset(e.cur, has0H, fmt.Sprintf("(Array %s Bool)", ks), tIte(tEq(m, "0"), fmt.Sprintf("((as const (Array %s Bool)) false)", ks), tSel(e.hget(e.cur, hs[1][0], hs[1][1]), m)))
+		e.hset(e.cur, fmt.Sprintf("$g$rangelen%d", ord), "Int", e.mapLen(e.cur, mt, m))
+	}
+}
+
+// mapRangeOrd numbers the range-over-map statements of the function in source order.
+func (e *Enc) mapRangeOrd(r *ssa.Range) int {
+	if e.mapRanges == nil {
+		type rp struct {
+			r   *ssa.Range
+			pos token.Pos
+		}
+		var all []rp
+		for _, b := range e.fn.Blocks {
+			for _, in := range b.Instrs {
+				if rr, ok := in.(*ssa.Range); ok {
+					if _, isMap := rr.X.Type().Underlying().(*types.Map); isMap {
+						all = append(all, rp{rr, rr.Pos()})
+					}
+				}
+			}
+		}
+		sort.SliceStable(all, func(i, j int) bool { return all[i].pos < all[j].pos })
+		e.mapRanges = map[*ssa.Range]int{}
+		for i, x := range all {
+			e.mapRanges[x.r] = i
+		}
+	}
+	return e.mapRanges[r]
 }
 
 func (e *Enc) execNext(in *ssa.Next) {
@@ -1695,6 +1742,25 @@ func (e *Enc) execNext(in *ssa.Next) {
 		if mt != nil {
 			m := e.val(rng.X).T
 			e.assume(tImp(ok, e.mapHas(e.cur, mt, m, k)))
+			// Go's iteration semantics (trusted, listed): every key is produced at most once; the iteration ends only
+			// when every entry that was present at the start and is still present has been produced; if the key set
+			// was not changed meanwhile, exactly len(m) keys were produced
+			ord := e.mapRangeOrd(rng)
+			seenH, cntH, has0H, len0H := fmt.Sprintf("$g$rangeseen%d", ord), fmt.Sprintf("$g$rangecount%d", ord), fmt.Sprintf("$g$rangehas%d", ord), fmt.Sprintf("$g$rangelen%d", ord)
+			ss := fmt.Sprintf("(Array %s Bool)", ks)
+			seen := e.hget(e.cur, seenH, ss)
+			cnt := e.hget(e.cur, cntH, "Int")
+			has0 := e.hget(e.cur, has0H, ss)
+			len0 := e.hget(e.cur, len0H, "Int")
+			hs := e.mapHeaps(mt)
+			hasCur := tSel(e.hget(e.cur, hs[1][0], hs[1][1]), m)
+			e.used["range over a map: Go's iteration semantics (each key produced at most once; ends only after every entry present throughout was produced; len(m) keys if the key set did not change)"] = true
+			e.assume(tImp(ok, tNot(tSel(seen, k))))
+			e.assume(tImp(tNot(ok), fmt.Sprintf("(forall ((j!r %s)) (! (=> (and (select %s j!r) (select %s j!r)) (select %s j!r)) :pattern ((select %s j!r))))", ks, has0, hasCur, seen, seen)))
+			e.assume(tImp(tAnd(tNot(ok), tEq(hasCur, has0)), tEq(cnt, len0)))
+			e.assume(tAnd(tLe("0", cnt), tLe(cnt, len0)))
+			e.hset(e.cur, seenH, ss, tIte(ok, tStore(seen, k, tTrue), seen))
+			e.hset(e.cur, cntH, "Int", tIte(ok, tAdd(cnt, "1"), cnt))
 			e.assume(tImp(ok, e.typeFacts(k, mt.Key(), e.cur)))
 			v := e.define("next_val", e.sortOf(mt.Elem()), e.mapGet(e.cur, mt, m, k))
 			e.assume(tImp(ok, e.typeFacts(v, mt.Elem(), e.cur)))
